@@ -10,9 +10,11 @@
 (*   handleZmodemEvent goroutine E  EInit, Sleep100, Launch, LaunchStore, LaunchFail,          *)
 (*     = handleZmodemStream reader  ReadFwd, ReadIgnore, ReadEOF, ReadErr, Break              *)
 (*   checkClientExited goroutine W  WaitReturns, WStore, WMsg, WArm, WCancel                  *)
-(*   handleZmodemError              HzeStart (CAS + cancel to the server), HzeCmd (cancel to  *)
-(*                                  the helper + ensureClientExit), HzeMsg (writeMessage)     *)
-(*   timers                         CleanupFires, ClientTimerFires, ServerTimerFires, Kill    *)
+(*   handleZmodemError              HzeStart (CAS won, inside the caller's step), HzeSrv      *)
+(*                                  (cancel to the server), HzeCmd (cancel to the helper +    *)
+(*                                  ensureClientExit), HzeMsg (writeMessage)                  *)
+(*   timers                         CleanupFires, CleanupWrite, ClientTimerFires,             *)
+(*                                  ServerTimerFires, Kill                                    *)
 (*   environment                    HelperOut(k), HelperExit(c)  (the local rz/sz process)    *)
 (*                                                                                            *)
 (* Time is abstract: a timer is a boolean "armed"; the short delays of the code (100 ms      *)
@@ -41,7 +43,7 @@ VARIABLES up, start, sess, cursor, errArms, crashed,           \* session parame
           stopped, cleaned, cliFin, srvFin, errOcc,            \* the five flags
           hlp, code, hlpQ, cmd,                                \* helper process, exit status, its unread output, z.cmd set
           pcE, pcW, hze, inp,                                  \* goroutines
-          cuT, clT, svT, kill,                                 \* timers (armed), pending kill
+          cuT, clT, svT, kill, crW,                            \* timers (armed), pending kill, pending "\r" write
           srvCan, hlpCan, hlpWaiting, errNoCmd, cleanHdr,          \* history
           nHdr, nSrv, nHout, nCtrlC, nText                     \* budgets used
 
@@ -49,7 +51,7 @@ sessv  == <<up, start, sess, cursor, errArms, crashed>>
 flags  == <<stopped, cleaned, cliFin, srvFin, errOcc>>
 helper == <<hlp, code, hlpQ, cmd>>
 pcs    == <<pcE, pcW, hze, inp>>
-timers == <<cuT, clT, svT, kill>>
+timers == <<cuT, clT, svT, kill, crW>>
 hist   == <<srvCan, hlpCan, hlpWaiting, errNoCmd, cleanHdr>>
 budget == <<nHdr, nSrv, nHout, nCtrlC, nText>>
 vars   == <<sessv, flags, helper, pcs, timers, hist, budget>>
@@ -65,7 +67,7 @@ InitVals ==
     /\ stopped = FALSE /\ cleaned = FALSE /\ cliFin = FALSE /\ srvFin = FALSE /\ errOcc = FALSE
     /\ hlp = "none" /\ code = "zero" /\ hlpQ = <<>> /\ cmd = FALSE
     /\ pcE = "idle" /\ pcW = "off" /\ hze = HzeIdle /\ inp = NoInp
-    /\ cuT = FALSE /\ clT = FALSE /\ svT = FALSE /\ kill = FALSE
+    /\ cuT = FALSE /\ clT = FALSE /\ svT = FALSE /\ kill = FALSE /\ crW = FALSE
     /\ srvCan = FALSE /\ hlpCan = FALSE /\ hlpWaiting = FALSE /\ errNoCmd = FALSE /\ cleanHdr = FALSE
     /\ nHdr = 0 /\ nSrv = 0 /\ nHout = 0 /\ nCtrlC = 0 /\ nText = 0
 
@@ -77,7 +79,7 @@ Reset ==
     /\ stopped' = FALSE /\ cleaned' = FALSE /\ cliFin' = FALSE /\ srvFin' = FALSE /\ errOcc' = FALSE
     /\ hlp' = "none" /\ code' = "zero" /\ hlpQ' = <<>> /\ cmd' = FALSE
     /\ pcE' = "idle" /\ pcW' = "off" /\ hze' = HzeIdle /\ inp' = NoInp
-    /\ cuT' = FALSE /\ clT' = FALSE /\ svT' = FALSE /\ kill' = FALSE
+    /\ cuT' = FALSE /\ clT' = FALSE /\ svT' = FALSE /\ kill' = FALSE /\ crW' = FALSE
     /\ srvCan' = FALSE /\ hlpCan' = FALSE /\ hlpWaiting' = FALSE /\ errNoCmd' = FALSE /\ cleanHdr' = FALSE
     /\ nHdr' = 0 /\ nSrv' = 0 /\ nHout' = 0 /\ nCtrlC' = 0 /\ nText' = 0
     /\ errArms' \in ErrArms
@@ -86,12 +88,20 @@ Reset ==
 (* handleZmodemError.  Only one caller ever wins the CAS on `stopped`, so one record `hze`   *)
 (* holds the progress of that call; a caller that loses the CAS returns at once.             *)
 
-(* CAS(false,true) won; errorOccurred; writeAll(serverIn, cancel)                            *)
+(* CAS(false,true) won; errorOccurred.Store(true)                                            *)
 HzeStart(who, cause) ==
     /\ stopped' = TRUE /\ errOcc' = TRUE
-    /\ srvCan' = TRUE
     /\ hlpWaiting' = (cmd /\ hlp = "run")
-    /\ hze' = [pc |-> "cmd", who |-> who, cause |-> cause]
+    /\ hze' = [pc |-> "srv", who |-> who, cause |-> cause]
+    /\ UNCHANGED srvCan
+
+(* writeAll(z.serverIn, zmodemCancelFullSequence)                                            *)
+HzeSrv ==
+    /\ ~crashed
+    /\ hze.pc = "srv"
+    /\ hze' = [hze EXCEPT !.pc = "cmd"]
+    /\ srvCan' = TRUE
+    /\ UNCHANGED <<sessv, flags, helper, pcE, pcW, inp, timers, hlpCan, hlpWaiting, errNoCmd, cleanHdr, budget>>
 
 (* if cmd := z.cmd.Load(); cmd != nil { writeAll(z.stdin, cancel); ensureClientExit(cmd) }   *)
 HzeCmd ==
@@ -102,7 +112,7 @@ HzeCmd ==
        THEN /\ hlpCan' = TRUE /\ kill' = TRUE
             /\ UNCHANGED errNoCmd
        ELSE /\ errNoCmd' = TRUE /\ UNCHANGED <<hlpCan, kill>>
-    /\ UNCHANGED <<sessv, flags, helper, pcE, pcW, inp, cuT, clT, svT, srvCan, hlpWaiting, cleanHdr, budget>>
+    /\ UNCHANGED <<crW, sessv, flags, helper, pcE, pcW, inp, cuT, clT, svT, srvCan, hlpWaiting, cleanHdr, budget>>
 
 (* z.writeMessage(msg); return to the caller.  Variant ErrArms: the cleanup timer is armed   *)
 (* when there is no helper whose exit would arm it.                                           *)
@@ -115,7 +125,7 @@ HzeMsg ==
     /\ pcE' = CASE hze.who = "E" -> "done"
                 [] hze.who = "R" -> "brk"
                 [] OTHER -> pcE
-    /\ UNCHANGED <<sessv, flags, helper, pcW, clT, svT, kill, hist, budget>>
+    /\ UNCHANGED <<crW, sessv, flags, helper, pcW, clT, svT, kill, hist, budget>>
 
 -----------------------------------------------------------------------------
 (* Output pump: one turn of wrapOutput's loop.                                                *)
@@ -152,7 +162,7 @@ Out(k) ==
     /\ ~crashed
     /\ nSrv < MaxSrv
     /\ nSrv' = nSrv + 1
-    /\ UNCHANGED <<up, start, errArms, crashed, cliFin, errOcc, helper, pcs, clT, kill,
+    /\ UNCHANGED <<crW, up, start, errArms, crashed, cliFin, errOcc, helper, pcs, clT, kill,
                    srvCan, hlpCan, hlpWaiting, errNoCmd, cleanHdr,
                    nHdr, nHout, nCtrlC, nText>>
     /\ IF sess # "held"
@@ -248,7 +258,7 @@ LaunchStore ==
     /\ pcE' = "read" /\ pcW' = "wait"
     /\ cmd' = TRUE
     /\ clT' = up /\ svT' = ~up
-    /\ UNCHANGED <<sessv, flags, hlp, code, hlpQ, hze, inp, cuT, kill, hist, budget>>
+    /\ UNCHANGED <<crW, sessv, flags, hlp, code, hlpQ, hze, inp, cuT, kill, hist, budget>>
 
 (* chooseUploadFiles/chooseDownloadPath or launchZmodemCmd failed: handleZmodemError(err)     *)
 LaunchFail ==
@@ -268,7 +278,7 @@ ReadFwd ==
     /\ hlpQ' = Tail(hlpQ)
     /\ clT' = up
     /\ cliFin' = (cliFin \/ Head(hlpQ) = "fin")
-    /\ UNCHANGED <<sessv, stopped, cleaned, srvFin, errOcc, hlp, code, cmd, pcs, cuT, svT, kill, hist, budget>>
+    /\ UNCHANGED <<crW, sessv, stopped, cleaned, srvFin, errOcc, hlp, code, cmd, pcs, cuT, svT, kill, hist, budget>>
 
 (* ... "ignore zmodem output": break                                                          *)
 ReadIgnore ==
@@ -278,7 +288,7 @@ ReadIgnore ==
     /\ hlpQ' = Tail(hlpQ)
     /\ clT' = up
     /\ pcE' = "brk"
-    /\ UNCHANGED <<sessv, flags, hlp, code, cmd, pcW, hze, inp, cuT, svT, kill, hist, budget>>
+    /\ UNCHANGED <<crW, sessv, flags, hlp, code, cmd, pcW, hze, inp, cuT, svT, kill, hist, budget>>
 
 (* err == io.EOF: break                                                                       *)
 ReadEOF ==
@@ -304,7 +314,7 @@ Break ==
     /\ pcE = "brk"
     /\ pcE' = "done"
     /\ clT' = FALSE /\ kill' = TRUE
-    /\ UNCHANGED <<sessv, flags, helper, pcW, hze, inp, cuT, svT, hist, budget>>
+    /\ UNCHANGED <<crW, sessv, flags, helper, pcW, hze, inp, cuT, svT, hist, budget>>
 
 -----------------------------------------------------------------------------
 (* Goroutine W: checkClientExited.                                                            *)
@@ -320,7 +330,7 @@ WStore ==
     /\ pcW = "store" /\ pcW' = "msg"
     /\ stopped' = TRUE
     /\ svT' = FALSE
-    /\ UNCHANGED <<sessv, cleaned, cliFin, srvFin, errOcc, helper, pcE, hze, inp, cuT, clT, kill, hist, budget>>
+    /\ UNCHANGED <<crW, sessv, cleaned, cliFin, srvFin, errOcc, helper, pcE, hze, inp, cuT, clT, kill, hist, budget>>
 
 WMsg ==
     /\ ~crashed
@@ -331,7 +341,7 @@ WArm ==
     /\ ~crashed
     /\ pcW = "arm" /\ pcW' = "cancel"
     /\ cuT' = TRUE
-    /\ UNCHANGED <<sessv, flags, helper, pcE, hze, inp, clT, svT, kill, hist, budget>>
+    /\ UNCHANGED <<crW, sessv, flags, helper, pcE, hze, inp, clT, svT, kill, hist, budget>>
 
 WCancel ==
     /\ ~crashed
@@ -342,18 +352,25 @@ WCancel ==
 -----------------------------------------------------------------------------
 (* Timers.                                                                                    *)
 
-(* resetCleanupTimer's AfterFunc: cleaned.Store(true); serverIn.Write("\r")                   *)
+(* resetCleanupTimer's AfterFunc: cleaned.Store(true) ...                                     *)
 CleanupFires ==
     /\ ~crashed
     /\ cuT /\ cuT' = FALSE
     /\ cleaned' = TRUE
+    /\ crW' = TRUE
     /\ UNCHANGED <<sessv, stopped, cliFin, srvFin, errOcc, helper, pcs, clT, svT, kill, hist, budget>>
+
+(* ... serverIn.Write("\r")  (enter for shell prompt)                                         *)
+CleanupWrite ==
+    /\ ~crashed
+    /\ crW /\ crW' = FALSE
+    /\ UNCHANGED <<sessv, flags, helper, pcs, cuT, clT, svT, kill, hist, budget>>
 
 TimerFires(who, cause) ==
     /\ IF stopped
        THEN UNCHANGED <<stopped, errOcc, srvCan, hlpWaiting, hze>>
        ELSE hze.pc = "idle" /\ HzeStart(who, cause)
-    /\ UNCHANGED <<sessv, cleaned, cliFin, srvFin, helper, pcE, pcW, inp, cuT, kill, hlpCan,
+    /\ UNCHANGED <<crW, sessv, cleaned, cliFin, srvFin, helper, pcE, pcW, inp, cuT, kill, hlpCan,
                    errNoCmd, cleanHdr, budget>>
 
 ClientTimerFires == ~crashed /\ clT /\ clT' = FALSE /\ UNCHANGED svT /\ TimerFires("T", "ctimeout")
@@ -364,7 +381,7 @@ Kill ==
     /\ ~crashed
     /\ kill /\ kill' = FALSE
     /\ IF hlp = "run" THEN hlp' = "dead" /\ code' = "nonzero" ELSE UNCHANGED <<hlp, code>>
-    /\ UNCHANGED <<sessv, flags, hlpQ, cmd, pcs, cuT, clT, svT, hist, budget>>
+    /\ UNCHANGED <<crW, sessv, flags, hlpQ, cmd, pcs, cuT, clT, svT, hist, budget>>
 
 -----------------------------------------------------------------------------
 (* The local helper process (environment).                                                    *)
@@ -386,7 +403,7 @@ HelperExit(c) ==
 Short ==    \* internal steps that are due within the code's short delays (<= 500 ms)
     \/ EInit \/ Sleep100 \/ Launch \/ LaunchStore \/ LaunchFail \/ ReadFwd \/ ReadIgnore \/ ReadEOF \/ ReadErr \/ Break
     \/ WaitReturns \/ WStore \/ WMsg \/ WArm \/ WCancel
-    \/ HzeCmd \/ HzeMsg \/ InCheck \/ Kill \/ CleanupFires
+    \/ HzeSrv \/ HzeCmd \/ HzeMsg \/ InCheck \/ Kill \/ CleanupFires \/ CleanupWrite
 
 Long == ClientTimerFires \/ ServerTimerFires     \* the 20 s timers
 
@@ -409,7 +426,7 @@ Quiescent ==
     /\ pcW \in {"off", "wait", "done"}
     /\ (pcW = "wait" => hlp = "run")
     /\ hze.pc = "idle" /\ inp.pc = "none"
-    /\ ~kill /\ ~cuT
+    /\ ~kill /\ ~cuT /\ ~crW
 
 (* ... and the 20 s timers have expired as well                                               *)
 LongQuiescent == Quiescent /\ ~clT /\ ~svT
@@ -421,14 +438,14 @@ Fairness ==
     /\ WF_vars(EInit) /\ WF_vars(Sleep100) /\ WF_vars(Launch) /\ WF_vars(LaunchStore) /\ WF_vars(LaunchFail)
     /\ WF_vars(ReadFwd) /\ WF_vars(ReadIgnore) /\ WF_vars(ReadEOF \/ ReadErr) /\ WF_vars(Break)
     /\ WF_vars(WaitReturns) /\ WF_vars(WStore) /\ WF_vars(WMsg) /\ WF_vars(WArm) /\ WF_vars(WCancel)
-    /\ WF_vars(HzeCmd) /\ WF_vars(HzeMsg) /\ WF_vars(InCheck) /\ WF_vars(Kill) /\ WF_vars(CleanupFires)
+    /\ WF_vars(HzeSrv) /\ WF_vars(HzeCmd) /\ WF_vars(HzeMsg) /\ WF_vars(InCheck) /\ WF_vars(Kill) /\ WF_vars(CleanupFires) /\ WF_vars(CleanupWrite)
     /\ WF_vars(ClientTimerFires) /\ WF_vars(ServerTimerFires)
 
 (* Environment assumption used only while ErrArms = {FALSE} (finding F1): after an error     *)
 (* with no helper, the remote side reacts to the cancel sequence with some output.           *)
 StuckNoCmd == Quiescent /\ sess = "held" /\ stopped /\ ~cleaned /\ errNoCmd
 EchoStep == ~crashed /\ StuckNoCmd /\ nSrv' = nSrv /\ cuT' = TRUE
-            /\ UNCHANGED <<sessv, flags, helper, pcs, clT, svT, kill, hist, nHdr, nHout, nCtrlC, nText>>
+            /\ UNCHANGED <<crW, sessv, flags, helper, pcs, clT, svT, kill, hist, nHdr, nHout, nCtrlC, nText>>
 
 LiveSpec     == Init /\ [][Next]_vars /\ Fairness                          \* strict
 NextEcho == Next \/ EchoStep
@@ -442,7 +459,7 @@ TypeOK ==
     /\ hlp \in {"none", "run", "dead"} /\ code \in Codes
     /\ pcE \in {"idle", "init", "sleep", "launch", "store", "read", "brk", "hze", "done"}
     /\ pcW \in {"off", "wait", "store", "msg", "arm", "cancel", "done"}
-    /\ hze.pc \in {"idle", "cmd", "msg"}
+    /\ hze.pc \in {"idle", "srv", "cmd", "msg"}
     /\ cmd = (pcW # "off") /\ (cmd => hlp # "none")
 
 (* Output that carries a cancel sequence or a 'cannot open' message alongside a header does  *)
@@ -455,7 +472,7 @@ VetoedHeaderStartsNothing ==
 (* after the helper started is handed to the helper.                                          *)
 CancelSentToWaiter ==
     /\ pcW = "done" => srvCan                                      \* helper exited -> server told
-    /\ (errOcc /\ hze.pc # "cmd" ) => srvCan                       \* any handleZmodemError -> server told
+    /\ (errOcc /\ hze.pc # "srv") => srvCan                        \* any handleZmodemError -> server told
     /\ (errOcc /\ hze.pc = "idle" /\ hlpWaiting) => hlpCan         \* ... and the helper, if it was running
 
 (* A server chunk is withheld from the terminal only while the session is not (stopped and   *)
